@@ -2088,6 +2088,15 @@ def _array_try_from(m, a, c):
             n = int(str(x).split("_")[0])
         except ValueError:
             pass
+    if n is None:
+        import re as _re
+        for t in [c.get("self_ty") or ""] + list(c.get("targs") or []):
+            mo = _re.search(r";\s*(\d+)(?:_usize)?\]", t)
+            if mo:
+                n = int(mo.group(1))
+                break
+    if n is None:
+        raise Unsupported("array length of TryFrom<&[T]> target unknown (%r)" % (c,))
     if hasattr(v, "length") and isinstance(getattr(v, "length"), int):
         if n is None or v.length == n:
             return ok(v)
@@ -2105,3 +2114,17 @@ def _res_err(m, a, c):
     if isinstance(v, Term):
         return Term("err", v)
     return some(v.fields["0"]) if v.variant == "Err" else NONE
+
+
+@reg("<T as std::string::ToString>::to_string", "std::string::ToString::to_string")
+def _to_string(m, a, c):
+    v = deref(a[0])
+    if isinstance(v, str):
+        return v
+    f = PyFmt(False)
+    r = fmt_value(m, "display", v, f)
+    if is_res(r, "Err"):
+        raise Panic("a Display implementation returned an error unexpectedly")
+    if not all(isinstance(x, str) for x in f.out):
+        return Term("to_string", v)
+    return "".join(f.out)
